@@ -7,7 +7,7 @@ import gate
 
 CONFIGS = ['prod']
 EXPLANATION = (
-    'Decided clauses: D no unguarded drop — a timestamp removed from its map is re-inserted, joined, or dropped only on an edge where it is the smaller one; B no blind overwrite — a timestamp written into a map slot with `insert` competed with what the slot held; L monotone LWW guards in insert_with_source / delete_with_source / try_update_max_stamp and their '
+    'Decided clauses: X a key is never live and tombstoned at once (a new stamp is stored in one map only after the key was removed from the other); D no unguarded drop — a timestamp removed from its map is re-inserted, joined, or dropped only on an edge where it is the smaller one; B no blind overwrite — a timestamp written into a map slot with `insert` competed with what the slot held; L monotone LWW guards in insert_with_source / delete_with_source / try_update_max_stamp and their '
     'and_modify closures (stored operand is the greater on every guard edge); T1 the order is the derived order of the single '
     'packed u64 word (layout checked bit-exactly under C10.E1); R the returned flag is set exactly where the entries/dead map '
     'is written; G will_apply consults every stamp table a mutator consults to refuse. NOT decided: the full outcome over all '
@@ -141,6 +141,8 @@ def check(ctx):
     ctx.floor('C04.L', 'survivor guards in the mutators', n, 5)
     nb = lww.check_blind_overwrites(ctx, facts, 'C04.B', roots[:2])
     ctx.floor('C04.B', 'timestamp stores by insert in the mutators', nb, 1)
+    nx = lww.check_exclusive_maps(ctx, facts, 'C04.X', roots[:2])
+    ctx.floor('C04.X', 'new-stamp stores into entries / dead in the mutators', nx, 2)
     nd = lww.check_guarded_drops(ctx, facts, 'C04.D', roots[:2])
     ctx.floor('C04.D', 'timestamp removals in the mutators', nd, 1)
     check_T1(ctx, facts)
